@@ -30,12 +30,12 @@ def run(tier, replay=None):
     rc = replay_transitions(c, exe, trans, finish=False)
     # 3. impl -> spec: seeded random walks validated against the specification
     tr = os.path.join(wd, "walks.ndjson")
-    walks, length = (80, 400) if thorough else (20, 200)
+    walks, length = (96, 400) if thorough else (24, 200)
     p = vlib.run([exe, "record", str(vlib.seed()), str(walks), str(length), tr], check=True)
     validate_trace(c, tr, None, finish=False)
     c.cov["traces_validated_against_impl"] = c.cov.get("traces_validated_against_impl", 0) + walks
     c.cov["exhaustive"] = True
-    c.cov["rule"] = "complete state graph of Interner over a 4/5-value alphabet; every transition replayed on Interner<String>, an Interner whose Ord is unrelated to insertion order, Interner<Type<PortableForm>> and PortableRegistryBuilder; Type-valued elements under five bindings (one body per definition kind; near misses that differ from one rich enum definition in exactly one leaf; the kinds shifted so that five values reach all of them; a cross product of a few leaves under one path; definitions with several members that share a prefix); plus seeded random walks over up to 96 values validated by TLC"
+    c.cov["rule"] = "complete state graph of Interner over a 4/5-value alphabet; every transition replayed on Interner<String>, an Interner whose Ord is unrelated to insertion order, Interner<Type<PortableForm>> and PortableRegistryBuilder; Type-valued elements under eleven bindings (one body per definition kind; near misses that differ from one rich enum definition in exactly one leaf; the kinds shifted so that five values reach all of them; a cross product of a few leaves under one path; definitions with several members that share a prefix; six windows of ANONYMOUS definitions - no path, parameters or docs - that differ in one component of the definition, for every definition kind); plus seeded random walks over up to 96 values validated by TLC"
     c.assumptions += ["the implementation has no state beyond elements()/finish() (what the harness projects)",
                       "Symbols for out-of-range resolve probes are taken from a larger donor interner of the same element type"]
     return c.finish()
